@@ -47,3 +47,39 @@ func TLog(tr *log.ContextTracer, sev int, msg string) {
 		tr.Critical(msg)
 	}
 }
+
+// LogF logs msg at severity sev through the formatting variants.
+func LogF(sev int, msg string) {
+	switch sev {
+	case 1:
+		log.Tracef("%s", msg)
+	case 2:
+		log.Debugf("%s", msg)
+	case 3:
+		log.Infof("%s", msg)
+	case 4:
+		log.Warningf("%s", msg)
+	case 5:
+		log.Errorf("%s", msg)
+	default:
+		log.Criticalf("%s", msg)
+	}
+}
+
+// TLogF logs on a tracer through the formatting variants.
+func TLogF(tr *log.ContextTracer, sev int, msg string) {
+	switch sev {
+	case 1:
+		tr.Tracef("%s", msg)
+	case 2:
+		tr.Debugf("%s", msg)
+	case 3:
+		tr.Infof("%s", msg)
+	case 4:
+		tr.Warningf("%s", msg)
+	case 5:
+		tr.Errorf("%s", msg)
+	default:
+		tr.Criticalf("%s", msg)
+	}
+}
